@@ -99,7 +99,7 @@ contract('IO.recv_reply', module=M, props=['C17', 'C10'],
          loops={0: dict(modifies=['self.recv_buffer', 'self.fetched', 'self.consumed', 'fresh'],
                         inv=['INV_IO(self)', 'implies(incomplete, input == self.recv_buffer)', 'self.consumed >= old(self.consumed)',
                              'message_lines != None and fresh(message_lines) and is_list(message_lines)',
-                             '_gcodes != None and _gseps != None and fresh(_gcodes) and fresh(_gseps) and _gcodes is not _gseps '
+                             '_gcodes != None and _gseps != None and fresh(_gcodes) and fresh(_gseps) and is_list(_gcodes) and is_list(_gseps) and _gcodes is not _gseps '
                              'and _gcodes is not message_lines and _gseps is not message_lines',
                              'len(_gcodes) == len(message_lines) and len(_gseps) == len(message_lines)',
                              'implies(code is None, len(message_lines) == 0)',
@@ -120,7 +120,7 @@ contract('IO.recv_reply', module=M, props=['C17', 'C10'],
                              '        and self.recv_buffer == substr(input, cast(start_i, Int), len(input) - cast(start_i, Int)))',
                              'implies(start_i is None, INV_IO(self))',
                              'message_lines != None and fresh(message_lines) and is_list(message_lines)',
-                             '_gcodes != None and _gseps != None and fresh(_gcodes) and fresh(_gseps) and _gcodes is not _gseps '
+                             '_gcodes != None and _gseps != None and fresh(_gcodes) and fresh(_gseps) and is_list(_gcodes) and is_list(_gseps) and _gcodes is not _gseps '
                              'and _gcodes is not message_lines and _gseps is not message_lines',
                              'len(_gcodes) == len(message_lines) and len(_gseps) == len(message_lines)',
                              'implies(code is None, len(message_lines) == 0)',
